@@ -351,6 +351,7 @@ class Check:
     def finish(self, min_nontrivial=2):
         known = [k for k in load_known() if k["property"] == self.pid]
         real = []
+        printed_known = set()
         for v in self.violations:
             hit = None
             for k in known:
@@ -358,7 +359,9 @@ class Check:
                     hit = k
                     break
             if hit:
-                print("KNOWN-FINDING: property=%s %s [%s] (x%d)" % (self.pid, hit["what"], v["key"], v["count"]))
+                if id(hit) not in printed_known:
+                    printed_known.add(id(hit))
+                    print("KNOWN-FINDING: property=%s %s [key %s]" % (self.pid, hit["what"], hit["key"]))
             else:
                 real.append(v)
         wall = time.time() - self.t0
